@@ -28,8 +28,7 @@ pub async fn run_ls(cmd_args: CmdArgs) -> Result<(), Box<dyn Error + Sync + Send
         }
     };
 
-    let (id, params) = connection.initialize_start()?;
-    let initialization_params: InitializeParams = serde_json::from_value(params).unwrap();
+    let (id, initialization_params) = initialize_start(&connection)?;
     let server_capabilities = server_capabilities(&initialization_params.capabilities);
     let initialize_data = serde_json::json!({
         "capabilities": server_capabilities,
@@ -48,6 +47,28 @@ pub async fn run_ls(cmd_args: CmdArgs) -> Result<(), Box<dyn Error + Sync + Send
 
     eprintln!("Server shutting down.");
     Ok(())
+}
+
+/// Wait for an `initialize` request whose params deserialize. An `initialize` with malformed
+/// params is answered with an InvalidParams error (instead of taking the server down) and the
+/// server keeps waiting, so the client can retry.
+fn initialize_start(
+    connection: &::lsp_server::Connection,
+) -> Result<(::lsp_server::RequestId, InitializeParams), Box<dyn Error + Sync + Send>> {
+    loop {
+        let (id, params) = connection.initialize_start()?;
+        match serde_json::from_value::<InitializeParams>(params) {
+            Ok(initialization_params) => return Ok((id, initialization_params)),
+            Err(err) => {
+                let response = ::lsp_server::Response::new_err(
+                    id,
+                    ::lsp_server::ErrorCode::InvalidParams as i32,
+                    format!("invalid initialize params: {err}"),
+                );
+                connection.sender.send(response.into())?;
+            }
+        }
+    }
 }
 
 /// Verification hook: run the real initialize handshake and main loop on a caller-supplied
